@@ -407,18 +407,14 @@ func inferFunc(pkg *Package, fn *internal.Elem, sig *types.Signature, targs []ty
 				if sharesTypeParam(tparams[:n], tp) {
 					return nil, nil, errSelfGenericArg(arg)
 				}
-				for i := 0; i < tp.Len(); i++ {
-					tparams = append(tparams, tp.At(i))
-				}
+				tparams = appendTypeParams(tparams, tp)
 			}
 		case *types.Signature:
 			if tp := t.TypeParams(); tp != nil {
 				if sharesTypeParam(tparams[:n], tp) {
 					return nil, nil, errSelfGenericArg(arg)
 				}
-				for i := 0; i < tp.Len(); i++ {
-					tparams = append(tparams, tp.At(i))
-				}
+				tparams = appendTypeParams(tparams, tp)
 			}
 		}
 	}
@@ -442,6 +438,26 @@ func sharesTypeParam(own []*types.TypeParam, tp *types.TypeParamList) bool {
 		}
 	}
 	return false
+}
+
+// appendTypeParams appends the type parameters of a generic function argument, each one once:
+// when the same generic function is passed for two parameters (f(g, g)) its type parameters
+// must not be handed to the unifier twice, or its cycle detection misses a type parameter
+// that was unified with a type mentioning itself and the substitution never terminates.
+func appendTypeParams(tparams []*types.TypeParam, tp *types.TypeParamList) []*types.TypeParam {
+	for i := 0; i < tp.Len(); i++ {
+		t, dup := tp.At(i), false
+		for _, have := range tparams {
+			if have == t {
+				dup = true
+				break
+			}
+		}
+		if !dup {
+			tparams = append(tparams, t)
+		}
+	}
+	return tparams
 }
 
 func errSelfGenericArg(arg *internal.Elem) error {
